@@ -56,6 +56,14 @@ CLAIMED = {
              "necessary conditions: sorted aggregates, per-round error reset of the three worklists, separator-anchored suffix "
              "tests on references, monotone updates of shared classes. Not decided: invariance under permutation as such.",
         ref="DESIGN.md §4 C12"),
+    "C19": dict(
+        technique="effect analysis: enumeration of all filesystem/process effect sites, path-operand string structure from the abstract interpreter, sanitiser alphabets from E6, CFG dominance / must-pass-through",
+        text="For all documents and names: each of the 25 effect sites has a path of the shape <project_dir|package_dir>/"
+             "(literal | sanitised component)*, and E6 proves over all code points that the sanitisers cannot emit a path "
+             "separator, NUL, or a leading dot; no effect precedes the existing-directory decision (dominance on Project.build), "
+             "the --overwrite flag reaches Config unmodified, models/ and api/ are removed on every path before being rebuilt, "
+             "document-dependent file names occur only under them. Not decided: file-system races, cross-flavour histories.",
+        ref="DESIGN.md §4 C19"),
 }
 
 NOT_APPLICABLE = {
